@@ -79,6 +79,8 @@ class FallbackClient:
         return None
 
     def get_many(self, keys):
+        # keys may be a one-shot iterable; every cache consulted needs all of it.
+        keys = list(keys)
         for cache in self.caches:
             result = cache.get_many(keys)
             if result:
@@ -94,6 +96,8 @@ class FallbackClient:
         return (None, None)
 
     def gets_many(self, keys):
+        # keys may be a one-shot iterable; every cache consulted needs all of it.
+        keys = list(keys)
         for cache in self.caches:
             result = cache.gets_many(keys)
             if result:
